@@ -66,7 +66,7 @@ Fixpoint bytes_of_sextets (l : list N) : option (list N) :=
   end.
 
 Definition lenient_decode (t : str) : option (list N) :=
-  match sextets_of (rev (strip_pad (rev t))) with
+  match sextets_of (rev_append (strip_pad (rev_append t [])) []) with
   | Some l => bytes_of_sextets l
   | None => None
   end.
